@@ -160,7 +160,7 @@ theorem evalStep_ext (h : Ext rec rec') (k k' : Nat) (hk : k ≤ k') (c : Ctx) (
       (fun r => match r with
         | .ok _ pt' env' w1 =>
           match (call E blk env' pt' { w1 with curPos := pt.pos, curText := slice E pt pt' }).1.panic with
-          | some p => .panic p (call E blk env' pt' { w1 with curPos := pt.pos, curText := slice E pt pt' }).2
+          | some p => .panic p (panicAt c pt' (call E blk env' pt' { w1 with curPos := pt.pos, curText := slice E pt pt' }).2)
           | none => .ok (call E blk env' pt' { w1 with curPos := pt.pos, curText := slice E pt pt' }).1.ret pt' env'
               (rollback E (addErrAt E c (call E blk env' pt' { w1 with curPos := pt.pos, curText := slice E pt pt' }).2
                 (call E blk env' pt' { w1 with curPos := pt.pos, curText := slice E pt pt' }).1.err pt.pos) w1.state)
